@@ -227,6 +227,11 @@ def uniform_dequantize(
       tensor_data, quantization_params
   )
   _is_valid_quantization_params(tensor_data, quantization_params)
+  if np.issubdtype(tensor_data.dtype, np.integer):
+    # The difference between a value and a zero point of the same narrow
+    # integer type (e.g. int8 data with the int8 zero point produced by
+    # tensor_zp_scale_from_min_max) does not fit that type and would wrap.
+    tensor_data = tensor_data.astype(np.int64)
   return np.multiply(
       tensor_data - quantization_params.zero_point, quantization_params.scale
   )
